@@ -6,7 +6,7 @@ usage: recheck_seeds.py [PROP ...]   (default: all)"""
 import glob, json, os, re, subprocess, sys
 
 V = "/verif"
-W = "/var/tmp/rv/seedcheck"
+W = os.environ.get("SEEDCHECK_DIR", "/var/tmp/rv/seedcheck")
 
 def sh(cmd, **kw):
     return subprocess.run(cmd, shell=True, capture_output=True, text=True, **kw)
